@@ -19,7 +19,7 @@ WKWS = [{}, {}, {"version": 1.2}, {"version": 2.0}, {"wrap": True}, {"wrap": Fal
         {"fmt": "%.3f"}, {"fmt": "%.8f"}, {"fmt": "%.6e"}, {"mnemonics_header": True}, {"data_section_header": "~A"},
         {"len_numeric_field": -1}, {"spacer": "  ", "lhs_spacer": ""}, {"data_width": 40, "wrap": True}, {"header_width": 25},
         {"column_fmt": {"0": "%.2f"}}]
-ODD_UNITS = [".1IN", "0.1IN", "1000 lbf", "M", "", "US/F", "(m)", "[ft]", "m.", "K/M3"]
+ODD_UNITS = [".1IN", "0.1IN", "M", "", "US/F", "(m)", "[ft]", "m.", "K/M3", "DEG.C"]
 RKWS = [{}, {}, {"engine": "normal"}, {"mnemonic_case": "preserve"}, {"mnemonic_case": "lower"}]
 
 
@@ -64,6 +64,20 @@ def mutate_lines(g, lines):
         elif kind == "long" and ":" in rest:
             out[i] = ln.rstrip() + " " + "long " * g.randint(5, 30)
     return out
+
+
+def null_unusable(lines):
+    """The ~Well NULL item has an empty or non-numeric value (as lasio parses the line: the field before the last colon)."""
+    import re
+    for ln in lines:
+        m = re.match(r"^\s*NULL\s*\.(\S*)\s*(.*):", ln, re.I)
+        if m:
+            v = m.group(2).strip().replace(",", ".")
+            try:
+                float(v)
+            except ValueError:
+                return True
+    return False
 
 
 def stop_differs(las):
@@ -136,7 +150,7 @@ class C11(Prop):
             lines = list(src.get("lines", []))
         if src.get("mutate") is not None:
             lines = mutate_lines(random.Random(src["mutate"]), lines)
-        return any(re.match(r"^\s*NULL\s*\.\S*\s*:", ln, re.I) for ln in lines)
+        return null_unusable(lines)
 
     predicates = {"las3_input": pred_las3, "quoted_text_cells": pred_quoted, "empty_null_value": pred_empty_null}
     quick = {"runs": 1500, "wall": 45}
